@@ -20,6 +20,9 @@ type c08Case struct {
 	S, D string
 	// Bits are IEEE-754 binary64 bit patterns of the inputs (one, or lower+higher for order)
 	Bits []uint64
+	Ch   []int // channel count of the buffers each value went through
+	Pos  []int // interleaved position of each value inside its block
+	Len  []int // length of that block
 }
 
 // fkey maps a float64 to an integer that preserves order (-0 and +0 both map to 0).
@@ -115,9 +118,7 @@ func c08Oracle(bd int, f float64, r int64) (kind, msg string) {
 func c08EvalCase(cs c08Case) (fs []F) {
 	s, d := typeByName(cs.S), typeByName(cs.D)
 	td := dyn.Types[d]
-	fwd := dyn.ConvBlock(s, d, len(cs.Bits))
-	out := make([]uint64, len(cs.Bits))
-	fwd(cs.Bits, out)
+	out, _ := evalAt(s, d, cs.Bits, cs.Pos, cs.Len, cs.Ch, false)
 	name := dyn.ConvName(s, d) + "/" + cs.S + "->" + cs.D
 	var res []int64
 	for i, b := range cs.Bits {
@@ -296,8 +297,8 @@ func c08Run(c *core.Ctx) {
 					allExh = false
 				}
 				nfail := newFailCap(100)
-				newEval := func() func(in, out []int64) {
-					fwd := dyn.ConvBlock(s, d, blockN)
+				newEval := func(ch int) func(in, out []int64) {
+					fwd := dyn.ConvBlockCh(s, d, blockN, ch)
 					rin := make([]uint64, blockN)
 					rout := make([]uint64, blockN)
 					return func(in, out []int64) {
@@ -311,16 +312,22 @@ func c08Run(c *core.Ctx) {
 						}
 					}
 				}
-				point := func(k, r int64) {
+				point := func(p sweepPos, k, r int64) {
 					f := dm.toF(k)
 					if kind, _ := c08Oracle(td.Bits, f, r); kind != "" && nfail.ok(kind) {
-						cs := c08Case{ts.Name, td.Name, []uint64{math.Float64bits(f)}}
-						c.Fail(cs, c08EvalCase(cs)...)
+						chs, pos, lens := posOf(p, false)
+						cs := c08Case{ts.Name, td.Name, []uint64{math.Float64bits(f)}, chs, pos, lens}
+						fs := c08EvalCase(cs)
+						if len(fs) == 0 {
+							c.InternalError("%s: failure %s at input %v (channels %d, position %d) seen in the sweep does not reproduce in isolation", name, kind, f, p.Ch, p.Idx)
+						}
+						c.Fail(cs, fs...)
 					}
 				}
-				orderFail := func(pk, po, k, o int64) {
+				orderFail := func(p sweepPos, pk, po, k, o int64) {
 					if nfail.ok("order") {
-						cs := c08Case{ts.Name, td.Name, []uint64{math.Float64bits(dm.toF(pk)), math.Float64bits(dm.toF(k))}}
+						chs, pos, lens := posOf(p, true)
+						cs := c08Case{ts.Name, td.Name, []uint64{math.Float64bits(dm.toF(pk)), math.Float64bits(dm.toF(k))}, chs, pos, lens}
 						fs := c08EvalCase(cs)
 						if len(fs) == 0 {
 							c.InternalError("%s: order violation seen in the sweep does not reproduce in isolation (%v->%d, %v->%d)", name, dm.toF(pk), po, dm.toF(k), o)
@@ -328,8 +335,16 @@ func c08Run(c *core.Ctx) {
 						c.Fail(cs, fs...)
 					}
 				}
-				n := runSeq(c, dm.gen, dm.shards, newEval, point, orderFail)
-				evals.Add(n)
+				var n int64
+				if dm.shards == 1 {
+					for _, ch := range []int{1, 2, 3} {
+						n = runSeq(c, dm.gen, 1, []int{ch}, newEval, point, orderFail)
+						evals.Add(n)
+					}
+				} else {
+					n = runSeq(c, dm.gen, dm.shards, []int{2, 1, 3}, newEval, point, orderFail)
+					evals.Add(n)
+				}
 				if dm.primary {
 					distinct.Add(n)
 				}
@@ -347,7 +362,7 @@ func c08Run(c *core.Ctx) {
 	c.Set("instantiations", inst)
 	c.Set("instantiations_with_exhaustive_source_domain", exh)
 	c.Set("exhaustive", exh == inst)
-	c.Set("rule", "22 instantiations through the real conversion in blocks, inputs ascending so that 'a larger input never gives a smaller code' is a streaming check; float32 sources: quick = lattice of all 2^20 sign/exponent/top-mantissa patterns x 4 low-mantissa fillers plus the float32-representable alphabet, thorough = every non-NaN float32 bit pattern; float64 sources: finite alphabet (+-4 ulp around 0, +-1, +-2^k and 1.5*2^k for k=-70..70, multiples around 256/65536/2^31/2^32/2^63/2^64, +-Inf, MaxFloat, every cell border j/2^(d-1) and j/(2^(d-1)-1) and cell middle for 8/16-bit destinations, boundary borders for wider ones); NaN never generated; exact oracle (128-bit integer product m*FS, no floating point); distinct_nontrivial = values of the primary sequence (distinct by construction)")
+	c.Set("rule", "22 instantiations through the real conversion on real buffers with 1, 2 and 3 channels in blocks (destination pre-filled with garbage), inputs ascending so that 'a larger input never gives a smaller code' is a streaming check; float32 sources: quick = lattice of all 2^20 sign/exponent/top-mantissa patterns x 4 low-mantissa fillers plus the float32-representable alphabet, thorough = every non-NaN float32 bit pattern; float64 sources: finite alphabet (+-4 ulp around 0, +-1, +-2^k and 1.5*2^k for k=-70..70, multiples around 256/65536/2^31/2^32/2^63/2^64, +-Inf, MaxFloat, every cell border j/2^(d-1) and j/(2^(d-1)-1) and cell middle for 8/16-bit destinations, boundary borders for wider ones); NaN never generated; exact oracle (128-bit integer product m*FS, no floating point); distinct_nontrivial = values of the primary sequence (distinct by construction)")
 	c.Assume("float64 inputs are covered by a finite alphabet only", "out-of-range float->int conversion is implementation-defined in Go; the check observes linux/amd64", "NaN excluded by the property")
 }
 
